@@ -65,6 +65,309 @@ def big():
         s += v
     return s
 
+def manyconsts():
+    v = 0.5
+    v = 1.5
+    v = 2.5
+    v = 3.5
+    v = 4.5
+    v = 5.5
+    v = 6.5
+    v = 7.5
+    v = 8.5
+    v = 9.5
+    v = 10.5
+    v = 11.5
+    v = 12.5
+    v = 13.5
+    v = 14.5
+    v = 15.5
+    v = 16.5
+    v = 17.5
+    v = 18.5
+    v = 19.5
+    v = 20.5
+    v = 21.5
+    v = 22.5
+    v = 23.5
+    v = 24.5
+    v = 25.5
+    v = 26.5
+    v = 27.5
+    v = 28.5
+    v = 29.5
+    v = 30.5
+    v = 31.5
+    v = 32.5
+    v = 33.5
+    v = 34.5
+    v = 35.5
+    v = 36.5
+    v = 37.5
+    v = 38.5
+    v = 39.5
+    v = 40.5
+    v = 41.5
+    v = 42.5
+    v = 43.5
+    v = 44.5
+    v = 45.5
+    v = 46.5
+    v = 47.5
+    v = 48.5
+    v = 49.5
+    v = 50.5
+    v = 51.5
+    v = 52.5
+    v = 53.5
+    v = 54.5
+    v = 55.5
+    v = 56.5
+    v = 57.5
+    v = 58.5
+    v = 59.5
+    v = 60.5
+    v = 61.5
+    v = 62.5
+    v = 63.5
+    v = 64.5
+    v = 65.5
+    v = 66.5
+    v = 67.5
+    v = 68.5
+    v = 69.5
+    v = 70.5
+    v = 71.5
+    v = 72.5
+    v = 73.5
+    v = 74.5
+    v = 75.5
+    v = 76.5
+    v = 77.5
+    v = 78.5
+    v = 79.5
+    v = 80.5
+    v = 81.5
+    v = 82.5
+    v = 83.5
+    v = 84.5
+    v = 85.5
+    v = 86.5
+    v = 87.5
+    v = 88.5
+    v = 89.5
+    v = 90.5
+    v = 91.5
+    v = 92.5
+    v = 93.5
+    v = 94.5
+    v = 95.5
+    v = 96.5
+    v = 97.5
+    v = 98.5
+    v = 99.5
+    v = 100.5
+    v = 101.5
+    v = 102.5
+    v = 103.5
+    v = 104.5
+    v = 105.5
+    v = 106.5
+    v = 107.5
+    v = 108.5
+    v = 109.5
+    v = 110.5
+    v = 111.5
+    v = 112.5
+    v = 113.5
+    v = 114.5
+    v = 115.5
+    v = 116.5
+    v = 117.5
+    v = 118.5
+    v = 119.5
+    v = 120.5
+    v = 121.5
+    v = 122.5
+    v = 123.5
+    v = 124.5
+    v = 125.5
+    v = 126.5
+    v = 127.5
+    v = 128.5
+    v = 129.5
+    v = 130.5
+    v = 131.5
+    v = 132.5
+    v = 133.5
+    v = 134.5
+    v = 135.5
+    v = 136.5
+    v = 137.5
+    v = 138.5
+    v = 139.5
+    v = 140.5
+    v = 141.5
+    v = 142.5
+    v = 143.5
+    v = 144.5
+    v = 145.5
+    v = 146.5
+    v = 147.5
+    v = 148.5
+    v = 149.5
+    v = 150.5
+    v = 151.5
+    v = 152.5
+    v = 153.5
+    v = 154.5
+    v = 155.5
+    v = 156.5
+    v = 157.5
+    v = 158.5
+    v = 159.5
+    v = 160.5
+    v = 161.5
+    v = 162.5
+    v = 163.5
+    v = 164.5
+    v = 165.5
+    v = 166.5
+    v = 167.5
+    v = 168.5
+    v = 169.5
+    v = 170.5
+    v = 171.5
+    v = 172.5
+    v = 173.5
+    v = 174.5
+    v = 175.5
+    v = 176.5
+    v = 177.5
+    v = 178.5
+    v = 179.5
+    v = 180.5
+    v = 181.5
+    v = 182.5
+    v = 183.5
+    v = 184.5
+    v = 185.5
+    v = 186.5
+    v = 187.5
+    v = 188.5
+    v = 189.5
+    v = 190.5
+    v = 191.5
+    v = 192.5
+    v = 193.5
+    v = 194.5
+    v = 195.5
+    v = 196.5
+    v = 197.5
+    v = 198.5
+    v = 199.5
+    v = 200.5
+    v = 201.5
+    v = 202.5
+    v = 203.5
+    v = 204.5
+    v = 205.5
+    v = 206.5
+    v = 207.5
+    v = 208.5
+    v = 209.5
+    v = 210.5
+    v = 211.5
+    v = 212.5
+    v = 213.5
+    v = 214.5
+    v = 215.5
+    v = 216.5
+    v = 217.5
+    v = 218.5
+    v = 219.5
+    v = 220.5
+    v = 221.5
+    v = 222.5
+    v = 223.5
+    v = 224.5
+    v = 225.5
+    v = 226.5
+    v = 227.5
+    v = 228.5
+    v = 229.5
+    v = 230.5
+    v = 231.5
+    v = 232.5
+    v = 233.5
+    v = 234.5
+    v = 235.5
+    v = 236.5
+    v = 237.5
+    v = 238.5
+    v = 239.5
+    v = 240.5
+    v = 241.5
+    v = 242.5
+    v = 243.5
+    v = 244.5
+    v = 245.5
+    v = 246.5
+    v = 247.5
+    v = 248.5
+    v = 249.5
+    v = 250.5
+    v = 251.5
+    v = 252.5
+    v = 253.5
+    v = 254.5
+    v = 255.5
+    v = 256.5
+    v = 257.5
+    v = 258.5
+    v = 259.5
+    v = 260.5
+    v = 261.5
+    v = 262.5
+    v = 263.5
+    v = 264.5
+    v = 265.5
+    v = 266.5
+    v = 267.5
+    v = 268.5
+    v = 269.5
+    v = 270.5
+    v = 271.5
+    v = 272.5
+    v = 273.5
+    v = 274.5
+    v = 275.5
+    v = 276.5
+    v = 277.5
+    v = 278.5
+    v = 279.5
+    v = 280.5
+    v = 281.5
+    v = 282.5
+    v = 283.5
+    v = 284.5
+    v = 285.5
+    v = 286.5
+    v = 287.5
+    v = 288.5
+    v = 289.5
+    v = 290.5
+    v = 291.5
+    v = 292.5
+    v = 293.5
+    v = 294.5
+    v = 295.5
+    v = 296.5
+    v = 297.5
+    v = 298.5
+    v = 299.5
+    return v
+
 def manylines(a):
 
     b = a
@@ -88,7 +391,7 @@ def objects():
     inner = ns["closure"](1)
     objs = [("function", ns["plain"]), ("closure-inner", inner), ("bound-method", k.method), ("classmethod", ns["K"].cm), ("staticmethod-result", ns["K"].sm),
             ("lambda", ns["K"].sm(1)), ("generator", g), ("coroutine", co), ("async-generator", ag), ("code", ns["plain"].__code__), ("module-code", code),
-            ("source-expr", "a + b * 3"), ("source-stmt", "x = 1\nfor i in y:\n    x += i\n"), ("big", ns["big"]), ("manylines", ns["manylines"]),
+            ("source-expr", "a + b * 3"), ("source-stmt", "x = 1\nfor i in y:\n    x += i\n"), ("big", ns["big"]), ("manylines", ns["manylines"]), ("manyconsts", ns["manyconsts"]),
             ("gen-function", ns["gen"]), ("coro-function", ns["coro"]), ("class-method-function", ns["K"].method)]
     # two functions whose code objects compare equal on hosts up to 3.10 (same name, first line, code bytes and constants) but whose
     # line tables differ: anything remembered per code object *value* answers the second with the first one's lines
